@@ -380,7 +380,7 @@ func expectedFile(c Case, want string) (int, string) {
 }
 
 func checkFiles(c Case, o *ev.Outcome) {
-	root, err := os.MkdirTemp("", "verif-c13-")
+	root, err := ev.MkdirTemp("verif-c13-")
 	if err != nil {
 		panic(err)
 	}
@@ -1144,7 +1144,7 @@ func genMixed(t *rapid.T) Case {
 }
 
 func checkMixed(c Case, o *ev.Outcome) {
-	root, err := os.MkdirTemp("", "verif-c13m-")
+	root, err := ev.MkdirTemp("verif-c13m-")
 	if err != nil {
 		panic(err)
 	}
